@@ -275,6 +275,16 @@ func c06Replay(i int, raw json.RawMessage) Result {
 				Detail: fmt.Sprintf("{{ if v, ok := %s; ok }} on root %s rendered %q (err %v), key present: %s", expr, v.Root, o4, e4, v.KeyPresent)}
 		}
 	}
+	// the same lookup assigning to declared variables ('=' form)
+	if v.KeyPresent == "yes" || v.KeyPresent == "no" {
+		src := "{{ v := 0 }}{{ ok := 0 }}{{ v, ok = " + expr + " }}{{ if ok }}yes{{ else }}no{{ end }}"
+		o6, e6 := c06Render(src, v.Root)
+		if e6 != nil || o6 != v.KeyPresent {
+			sig["kind"] = "isset-lookup-set"
+			return Result{Sig: sig, Key: key, Observed: map[string]interface{}{"out": o6, "err": fmt.Sprint(e6)}, Expected: v.KeyPresent,
+				Detail: fmt.Sprintf("%s on root %s rendered %q (err %v), key present: %s", src, v.Root, o6, e6, v.KeyPresent)}
+		}
+	}
 	return Result{OK: true, Key: key}
 }
 
